@@ -185,41 +185,51 @@ static void unit_type_static(Reporter& R, const char* tname, uint64_t tindex) {
     one(std::integral_constant<U, PhQ::Standard<U>>{});
     one(std::integral_constant<U, from>{});
     one(std::integral_constant<U, static_cast<U>(NextNamed<U, static_cast<int>(from)>::value)>{});
-    // container forms: from -> standard and standard -> from
+    // container forms: from -> standard, standard -> from, and from -> the next declared unit (two non-standard
+    // units: the two single steps do not commute for the affine temperature scales)
     constexpr U S = PhQ::Standard<U>;
-    auto chk = [&](const char* form, const auto& in, const auto& out1, const auto& out2) {
-      const auto a = in, o1 = out1, o2 = out2;
+    constexpr U NX = static_cast<U>(NextNamed<U, static_cast<int>(from)>::value);
+    const bool nx_ok = unit_usable<U, T>(NX);
+    auto chk = [&](const char* form, const auto& in, const auto& out1, const auto& out2, const auto& out3) {
+      const auto a = in, o1 = out1, o2 = out2, o3 = out3;
       R.eval();
       for (size_t i = 0; i < a.size(); ++i) {
-        if (!agree(o1[i], PhQ::Convert(a[i], from, S), nid) || !agree(o2[i], PhQ::Convert(a[i], S, from), nid)) {
-          R.violation(base + "|" + form + "|unit=" + fid + "|" + Num<T>::name, J().s("form", form).i("component", i).num("input", a[i]).str());
+        if (!agree(o1[i], PhQ::Convert(a[i], from, S), nid) || !agree(o2[i], PhQ::Convert(a[i], S, from), nid) ||
+            (nx_ok && !agree(o3[i], PhQ::Convert(a[i], from, NX), nid))) {
+          R.violation(base + "|" + form + "|unit=" + fid + "|" + Num<T>::name,
+                      J().s("form", form).i("component", i).num("input", a[i]).num("to_standard", o1[i]).num("from_standard", o2[i])
+                          .num("to_next_unit", o3[i]).s("next_unit", Enumerators<U>::name(NX)).str());
           return;
         }
       }
     };
     {
       const auto a = distinct_values<T, 5>(rng);
-      chk("array", a, PhQ::ConvertStatically<U, from, S>(a), PhQ::ConvertStatically<U, S, from>(a));
+      chk("array", a, PhQ::ConvertStatically<U, from, S>(a), PhQ::ConvertStatically<U, S, from>(a), PhQ::ConvertStatically<U, from, NX>(a));
     }
     {
       const auto a = distinct_values<T, 2>(rng);
       const auto v = FromArr<PhQ::PlanarVector<T>>::make(a);
-      chk("PlanarVector", a, to_arr(PhQ::ConvertStatically<U, from, S>(v)), to_arr(PhQ::ConvertStatically<U, S, from>(v)));
+      chk("PlanarVector", a, to_arr(PhQ::ConvertStatically<U, from, S>(v)), to_arr(PhQ::ConvertStatically<U, S, from>(v)),
+          to_arr(PhQ::ConvertStatically<U, from, NX>(v)));
     }
     {
       const auto a = distinct_values<T, 3>(rng);
       const auto v = FromArr<PhQ::Vector<T>>::make(a);
-      chk("Vector", a, to_arr(PhQ::ConvertStatically<U, from, S>(v)), to_arr(PhQ::ConvertStatically<U, S, from>(v)));
+      chk("Vector", a, to_arr(PhQ::ConvertStatically<U, from, S>(v)), to_arr(PhQ::ConvertStatically<U, S, from>(v)),
+          to_arr(PhQ::ConvertStatically<U, from, NX>(v)));
     }
     {
       const auto a = distinct_values<T, 6>(rng);
       const auto v = FromArr<PhQ::SymmetricDyad<T>>::make(a);
-      chk("SymmetricDyad", a, to_arr(PhQ::ConvertStatically<U, from, S>(v)), to_arr(PhQ::ConvertStatically<U, S, from>(v)));
+      chk("SymmetricDyad", a, to_arr(PhQ::ConvertStatically<U, from, S>(v)), to_arr(PhQ::ConvertStatically<U, S, from>(v)),
+          to_arr(PhQ::ConvertStatically<U, from, NX>(v)));
     }
     {
       const auto a = distinct_values<T, 9>(rng);
       const auto v = FromArr<PhQ::Dyad<T>>::make(a);
-      chk("Dyad", a, to_arr(PhQ::ConvertStatically<U, from, S>(v)), to_arr(PhQ::ConvertStatically<U, S, from>(v)));
+      chk("Dyad", a, to_arr(PhQ::ConvertStatically<U, from, S>(v)), to_arr(PhQ::ConvertStatically<U, S, from>(v)),
+          to_arr(PhQ::ConvertStatically<U, from, NX>(v)));
     }
     R.nontrivial(hash_str(base + fid + Num<T>::name));
   });
@@ -254,6 +264,10 @@ static void quantity_entry(Reporter& R, const char* name, uint64_t qindex) {
           const Q q(FromArr<V>::make(a), u);
           const auto stored = to_si(q);
           R.eval();
+          if (R.want_sample(qindex + static_cast<uint64_t>(pu.first), 53)) {
+            R.sample(J().s("quantity", name).s("numeric_type", Num<T>::name).s("unit", pu.second).raw("given", jarr(a)).raw("stored_SI", jarr(stored))
+                         .raw("read_back_in_unit", jarr(to_arr(q.Value(u)))).str());
+          }
           // converted once, on construction
           for (size_t i = 0; i < N; ++i) {
             if (!agree(stored[i], PhQ::Convert(a[i], u, S), nid)) {
